@@ -6,17 +6,40 @@ import types
 from props.common import BASE_TRUSTED
 
 PROP = 'C12'
-KERNELS = ['fc_tangential', 'fc_sagittal', 'distortion_ftan', 'distortion_ftheta', 'grid_distortion', 'op_rms_spot',
+KERNELS = ['fc_tangential', 'fc_sagittal', 'distortion_ftan', 'distortion_ftheta', 'distortion_height', 'grid_distortion', 'op_rms_spot',
            'rayfan_init', 'pupilab_init']
-THEOREMS = ['C12_first_moment_mean', 'C12_first_moment_unique', 'C12_centroid1_is_centroid', 'C12_centroid_primary',
-            'C12_rms_radius_spec', 'C12_geo_radius_spec', 'C12_geo_radius_bounds', 'C12_center_spots_spec',
-            'C12_ee_monotone', 'C12_ee_bounded', 'C12_ee_total', 'C12_ee_curve_reaches_total', 'C12_op_rms_spot_spec',
-            'C12_op_rms_spot_centroid', 'C12_rayfan_init_odd', 'C12_pupilab_init_odd', 'C12_linspace_mid_zero',
-            'C12_rayfan_field_spec', 'C12_pupil_err_spec', 'C12_distortion_ftan_value', 'C12_distortion_ftan_ideal',
-            'C12_distortion_ftheta_value', 'C12_distortion_model_invalid_type', 'C12_grid_distortion_invalid_type',
-            'C12_grid_distortion_ftheta_spec', 'C12_parabasal_crossing', 'C12_fc_tangential_crossing',
-            'C12_fc_sagittal_crossing', 'C12_evens_odds_interleave']
-COQ_TARGETS = ['Model/Trace.vo', 'Model/M_C12.vo']
+THEOREMS = ['C12_centroid_is_zero_first_moment',
+            'C12_nan_reductions_skip',
+            'C12_nanmean_clean',
+            'C12_centroid1_is_centroid',
+            'C12_reference_index_rule',
+            'C12_centroid_reference_rule',
+            'C12_centroid_ignores_failed_ray',
+            'C12_rms_radius_spec',
+            'C12_geo_radius_spec',
+            'C12_geo_radius_bounds',
+            'C12_center_spots_spec',
+            'C12_ee_properties',
+            'C12_ee_curve_reaches_total',
+            'C12_op_rms_spot_is_rms_about_centroid',
+            'C12_fan_samples_odd',
+            'C12_linspace_mid_zero',
+            'C12_rayfan_reference_rule',
+            'C12_rayfan_field_spec',
+            'C12_pupil_err_spec',
+            'C12_distortion_ftan_value',
+            'C12_distortion_ftan_ideal',
+            'C12_distortion_ftheta_value',
+            'C12_distortion_height_value',
+            'C12_distortion_height_ideal',
+            'C12_invalid_type_raises',
+            'C12_grid_tail_spec',
+            'C12_grid_distortion_height_spec',
+            'C12_grid_distortion_angle_spec',
+            'C12_parabasal_crossing',
+            'C12_fc_crossing',
+            'C12_evens_odds_interleave']
+COQ_TARGETS = ['Model/Trace.vo', 'Model/M_C12.vo', 'Lemmas/L_C12_float.vo']
 TRUSTED_BASE = BASE_TRUSTED + [
     'py2coq extension tools/py2coq_c12.py (1-D NumPy arrays as lists, elementwise arithmetic, np.mean / np.max as fold-based reductions; '
     'the reads of the trace records are kernel INPUTS); validated by running each kernel against the real method on a stub optic',
@@ -31,10 +54,10 @@ RULE = ('seeded rotationally symmetric lenses (planes, spheres, conics, a share 
         'object-height fields; 2-3 y fields, 1-3 wavelengths, apertures, coatings, vignetting factors); every analysis at the lens\'s own '
         'lists and at explicit wavelength lists with / without the primary wavelength; distributions hexapolar, uniform, cross, line, random; '
         'both distortion types, odd and even grids; non-trivial = lens on which every analysis produced finite, non-constant output. '
-        'Paraboloids (k = -1) are excluded from the generated lenses (the tracer loses precision on them for near-axial rays: a C02 matter).')
+        'About a third of the lenses have a curved image surface; every query is repeated and .data re-read after the radius queries.')
 PARTIAL = ['Coddington agreement of the field-curvature data is checked numerically (independent trace), the theorem covers the finite-delta crossing algebra',
            'blocked rays (intensity 0) are counted in centroid / RMS / geometric radius exactly as the implementation does (documented behaviour); '
-           'failed rays (NaN) are the subject of finding nan-ray-poisons-spot-statistics',
+           'failed rays (NaN) are ignored (theorems C12_nanmean_skip / C12_centroid_ignores_failed_ray hold for every arithmetic instance)',
            'YYbar has only a plotting method: checked at implementation level (segments = consecutive (chief, marginal) paraxial heights)',
            'distortion f-theta ideal-lens statement is not proved exactly (the code divides by tan(1e-10 theta) instead of 1e-10 theta)']
 
@@ -80,14 +103,17 @@ def _fc_py(cases, sagittal):
     return out
 
 
-def _dist_py(cases, ty):
+def _dist_py(cases, ty, height=False):
     import numpy as np
     from optiland.analysis import Distortion
     out = []
-    for (Hy, ws, yr, maxf) in cases:
+    for case in cases:
+        Hy, ws, yr = case[:3]
+        maxf = case[3] if len(case) > 3 else 7.0
         try:
             o = _stub_optic(y=[np.zeros(len(yr)), yr])
             o.fields = types.SimpleNamespace(max_field=maxf)
+            o.field_type = 'object_height' if height else 'angle'
             me = types.SimpleNamespace(num_points=len(yr), wavelengths=list(ws), distortion_type=ty, optic=o)
             assert [float(v) for v in np.linspace(1e-10, 1, len(yr))] == [float(v) for v in Hy]
             r = Distortion._generate_data(me)
@@ -101,19 +127,24 @@ def _grid_py(cases):
     import numpy as np
     from optiland.analysis import GridDistortion
     out = []
-    for (ty, y_ref, maxf, Hx, Hy, xr, yr) in cases:
+    for (y_ref, x_ref, ty, fty, Hx, Hy, maxf, xr, yr) in cases:
         try:
             n = int(round(math.sqrt(len(Hx))))
-            o = _stub_optic(y=[[0.0], [y_ref]])
+            o = _stub_optic(x=[[0.0], [0.0]], y=[[0.0], [0.0]])
             state = {'calls': 0}
 
-            def tg(*a, _o=o, _s=state, _xr=xr, _yr=yr, **k):
+            def tg(*a, _o=o, _s=state, _xr=xr, _yr=yr, _x0=x_ref, _y0=y_ref, **k):
                 _s['calls'] += 1
-                if _s['calls'] == 2:
+                if _s['calls'] == 1:
+                    _o.surface_group.y = np.array([[0.0], [_y0]], dtype=float)
+                elif _s['calls'] == 2:
+                    _o.surface_group.x = np.array([[0.0], [_x0]], dtype=float)
+                else:
                     _o.surface_group.x = np.array([np.zeros(len(_xr)), _xr], dtype=float)
                     _o.surface_group.y = np.array([np.zeros(len(_yr)), _yr], dtype=float)
             o.trace_generic = tg
             o.fields = types.SimpleNamespace(max_field=maxf)
+            o.field_type = fty
             me = types.SimpleNamespace(num_points=n, wavelength=0.55, distortion_type=ty, optic=o)
             d = GridDistortion._generate_data(me)
             out.append({'ok': [_hx(d['xr']), _hx(d['yr']), _hx(d['xp']), _hx(d['yp']), float(d['max_distortion']).hex()]})
@@ -181,6 +212,8 @@ def kernel_cases(ctx):
         ds.append([Hy, ws, yr, maxf])
     yield 'distortion_ftan', ds, {'tol': 1e-10, 'scalars': ['self.optic.fields.max_field'], 'pyres': _dist_py(ds, 'f-tan')}
     yield 'distortion_ftheta', ds, {'tol': 1e-10, 'scalars': ['self.optic.fields.max_field'], 'pyres': _dist_py(ds, 'f-theta')}
+    dh = [c[:3] for c in ds]
+    yield 'distortion_height', dh, {'tol': 1e-10, 'pyres': _dist_py(dh, g.r.choice(['f-tan', 'f-theta']), height=True)}
     gd = []
     for i in range(n):
         m = g.r.choice([2, 3, 4, 5])
@@ -190,10 +223,14 @@ def kernel_cases(ctx):
         maxf = g.uni(0.5, 30)
         f = g.uni(20, 200)
         ty = 'bogus' if i % 13 == 0 else g.r.choice(['f-tan', 'f-theta'])
-        xr = [-f * math.tan(h * math.radians(maxf)) * (1 + g.uni(-0.03, 0.03)) for h in Hx]
+        fty = g.r.choice(['angle', 'object_height'])
+        sx_ = -1 if fty == 'angle' else 1           # angle fields are launched with x mirrored
+        xr = [sx_ * f * math.tan(h * math.radians(maxf)) * (1 + g.uni(-0.03, 0.03)) for h in Hx]
         yr = [f * math.tan(h * math.radians(maxf)) * (1 + g.uni(-0.03, 0.03)) for h in Hy]
         y_ref = f * math.tan(1e-10 * math.radians(maxf))
-        gd.append([ty, y_ref, maxf, Hx, Hy, xr, yr])
+        if i % 7 == 0:
+            xr, yr, y_ref = [0.0] * len(Hx), [0.0] * len(Hy), 0.0     # nothing off the axis: max_distortion = nan
+        gd.append([y_ref, sx_ * y_ref, ty, fty, Hx, Hy, maxf, xr, yr])
     yield 'grid_distortion', gd, {'tol': 1e-10, 'pyres': _grid_py(gd)}
     rs = []
     for i in range(n):
@@ -243,6 +280,10 @@ Notation field_curvature_T := (M_C12.field_curvature_T (O:=FOps)).
 Notation field_curvature_S := (M_C12.field_curvature_S (O:=FOps)).
 Notation op_rms_all := (M_C12.op_rms_all (O:=FOps)).
 Notation max_list := (OpsC12.max_list (O:=FOps)).
+Notation nanmax_list := (OpsC12.nanmax_list (O:=FOps)).
+Notation spot_centroid := (M_C12.spot_centroid (O:=FOps)).
+Notation spot_geo := (M_C12.spot_geo (O:=FOps)).
+Notation spot_rms := (M_C12.spot_rms (O:=FOps)).
 Definition flat2 (l : list (list float)) : list float := List.concat l.
 Definition pairs (l : list (float * float)) : list float := flat_map (fun c => [fst c; snd c]) l.
 Definition optlist (o : option (list float)) (e : list float) : bool :=
@@ -259,7 +300,7 @@ def _lens(ctx, salt, k, **kw):
     rng = random.Random(ctx.seed * 7919 + salt * 101 + k)
     spec = C.c12_spec(rng, **kw)
     try:
-        o = lensgen.build(spec)
+        o = C.build(spec)
         o.paraxial.EPL()
     except Exception as e:   # noqa
         return None, spec, rng
@@ -307,14 +348,17 @@ def _model_cases(ctx, nl):
             defs.append(f'Definition {dn} := {_data(spots)}.')
             try:
                 sd = SpotDiagram(o, fields=F, wavelengths=wl, num_rings=nr, distribution='hexapolar')
-                cen, geo, rms = sd.centroid(), sd.geometric_spot_radius(), sd.rms_spot_radius()
-                pidx = int(sd._reference_index()) if hasattr(sd, '_reference_index') else int(o.wavelengths.primary_index)
-                add(f'spot-centroid:{tag}', f'optlist (option_map pairs (centroid {pidx}%Z {dn})) {_fl([v for c in cen for v in c])}')
-                add(f'spot-geo:{tag}', f'optlist (option_map flat2 (geometric_spot_radius {pidx}%Z {dn})) {_fl([v for r in geo for v in r])}')
-                add(f'spot-rms:{tag}', f'optlist (option_map flat2 (rms_spot_radius {pidx}%Z {dn})) {_fl([v for r in rms for v in r])}')
-            except IndexError as e:
+                geo, rms, cen = sd.geometric_spot_radius(), sd.rms_spot_radius(), sd.centroid()
+                wsl = f'{_fl(wl)} {fh(wp)}'
+                add(f'spot-centroid:{tag}', f'optlist (option_map pairs (spot_centroid {wsl} {dn})) {_fl([v for c in cen for v in c])}')
+                add(f'spot-geo:{tag}', f'optlist (option_map flat2 (spot_geo {wsl} {dn})) {_fl([v for r in geo for v in r])}')
+                add(f'spot-rms:{tag}', f'optlist (option_map flat2 (spot_rms {wsl} {dn})) {_fl([v for r in rms for v in r])}')
+                # the stored intersections after the queries are still the traced ones
+                add(f'spot-data:{tag}', f'close_list {TOL} (flat_map (fun fd => flat_map (fun s => sx s ++ sy s) fd) {dn}) '
+                                        f'{_fl([v for fd in sd.data for sp in fd for c in (0, 1) for v in sp[c]])}')
+            except (IndexError, KeyError) as e:
                 raised('SpotDiagram', e)
-                add(f'spot-raises:{tag}', f'isnone (centroid {pidx}%Z {dn})')
+                add(f'spot-raises:{tag}', f'isnone (spot_centroid {_fl(wl)} {fh(wp)} {dn})')
         # ---- encircled energy ----
         try:
             nr, npts = rng.choice([1, 2]), rng.choice([5, 9])
@@ -322,7 +366,7 @@ def _model_cases(ctx, nl):
             curves, _ = C.ee_view_curves(ee)
             spots = [[C.spot_of(o, f, wp, nr, 'hexapolar')] for f in F]
             defs.append(f'Definition d_ee := {_data(spots)}.')
-            defs.append('Definition ee_axis := match geometric_spot_radius 0%Z d_ee with Some g => max_list (flat2 g) | None => nan end.')
+            defs.append('Definition ee_axis := match geometric_spot_radius 0%Z d_ee with Some g => nanmax_list (flat2 g) | None => nan end.')
             for fi in range(len(F)):
                 r_step, e_step = curves[fi]
                 add('ee-curve', f'match center_spots 0%Z d_ee with Some c => match nth_error c {fi} with Some [s] => '
@@ -353,8 +397,7 @@ def _model_cases(ctx, nl):
                     for w in wl:
                         d = a.data[f'{f}'][f'{w}']
                         flat += list(d['x']) + list(d['y'])
-                wref = wp if wp in [float(t) for t in wl] else float(wl[0])    # no KeyError although the primary is not listed: first listed
-                add(f'rayfan:{tag}', f'optlist (option_map fan_xy (rayfan {_fl(wl)} {fh(wref)} {np0}%Z {dn})) {_fl(flat)}')
+                add(f'rayfan:{tag}', f'optlist (option_map fan_xy (rayfan {_fl(wl)} {fh(wp)} {np0}%Z {dn})) {_fl(flat)}')
             except KeyError as e:
                 raised('RayFan', e)
                 add(f'rayfan-raises:{tag}', f'isnone (rayfan {_fl(wl)} {fh(wp)} {np0}%Z {dn})')
@@ -382,7 +425,8 @@ def _model_cases(ctx, nl):
             npts = rng.choice([3, 5])
             Hy = np.linspace(1e-10, 1, npts)
             yrs = [C.tg(o, 0.0, Hy, 0.0, 0.0, w)['y'][-1] for w in W]
-            me = f'(distortion "{ty}" {fh(mf)} (distortion_Hy {fh(1e-10)} {npts}) [' + '; '.join(_fl(y) for y in yrs) + '])'
+            hb = 'true' if o.field_type == 'object_height' else 'false'
+            me = f'(distortion {hb} "{ty}" {fh(mf)} (distortion_Hy {fh(1e-10)} {npts}) [' + '; '.join(_fl(y) for y in yrs) + '])'
             try:
                 a = Distortion(o, wavelengths='all', num_points=npts, distortion_type=ty)
                 add(f'distortion:{ty}', f'optlist (option_map flat2 {me}) {_fl([v for d in a.data for v in d])}')
@@ -398,9 +442,10 @@ def _model_cases(ctx, nl):
                 ext = np.linspace(-m, m, npts)
                 Hx, Hy = np.meshgrid(ext, ext)
                 y_ref = C.tg(o, 0.0, 1e-10, 0.0, 0.0, wp)['y'][-1, 0]
+                x_ref = C.tg(o, 1e-10, 0.0, 0.0, 0.0, wp)['x'][-1, 0]
                 r = C.tg(o, Hx.flatten(), Hy.flatten(), 0.0, 0.0, wp)
                 exp = list(np.ravel(a.data['xp'])) + list(np.ravel(a.data['yp'])) + [float(a.data['max_distortion'])]
-                add(f'grid:{ty}', f'match grid_distortion "{ty}" {fh(y_ref)} {fh(mf)} {npts} {_fl(r["x"][-1])} {_fl(r["y"][-1])} with '
+                add(f'grid:{ty}', f'match grid_distortion "{ty}" "{o.field_type}" {fh(x_ref)} {fh(y_ref)} {fh(mf)} {npts} {_fl(r["x"][-1])} {_fl(r["y"][-1])} with '
                                   f'Some (_, _, xp, yp, m) => close_list {TOL} (xp ++ yp ++ [m]) {_fl(exp)} | None => false end')
             except Exception as e:   # noqa
                 raised('GridDistortion', e)
